@@ -205,7 +205,15 @@ func newInterp(l *loaded, tier string, solverTimeout int) (*Interp, error) {
 	if err != nil {
 		return nil, err
 	}
-	in := &Interp{prog: l.prog, tt: tt, solver: s, tier: tier, maxSteps: 3000000, maxPaths: 200000, maxPreempt: 2, fnInfos: map[*ssa.Function]*fnInfo{}, varMemo: map[int][]int{}, qcache: map[string]*qcEntry{}, noSlice: os.Getenv("VERIF_NOSLICE") != ""}
+	var s2 *Solver
+	crossN := 12
+	if tier == "thorough" {
+		crossN = 40
+	}
+	if os.Getenv("VERIF_NO_CROSSCHECK") == "" {
+		s2, _ = NewSolver(KindCVC5, tt, 5000)
+	}
+	in := &Interp{prog: l.prog, tt: tt, solver: s, solver2: s2, crossLeft: crossN, tier: tier, maxSteps: 3000000, maxPaths: 200000, maxPreempt: 2, fnInfos: map[*ssa.Function]*fnInfo{}, varMemo: map[int][]int{}, qcache: map[string]*qcEntry{}, noSlice: os.Getenv("VERIF_NOSLICE") != ""}
 	return in, nil
 }
 
@@ -380,6 +388,34 @@ func (in *Interp) tryInstr(fr *frame, instr ssa.Instruction) (ok bool) {
 }
 
 // assertTerm handles verifrt.Assert and implicit obligations.
+// crossCheck re-decides an assertion query with the second solver (cvc5) and compares verdicts:
+// a sample of the deciding queries of every harness is diffed on every run, so an encoding or
+// solver bug that makes z3 answer unsat wrongly shows up as a disagreement (= inconclusive).
+func (in *Interp) crossCheck(as []*Term, r Result) {
+	if in.solver2 == nil || (r != Sat && r != Unsat) {
+		return
+	}
+	in.crossLeft--
+	r2, _, _ := in.solver2.Check(as, nil)
+	in.h.CrossChecked++
+	switch {
+	case r2 == r:
+		in.h.CrossAgreed++
+	case r2 == Sat || r2 == Unsat:
+		in.h.Inconclusive = append(in.h.Inconclusive, fmt.Sprintf("solver disagreement: z3 says %v, cvc5 says %v", r, r2))
+	default:
+		in.h.CrossUnknown++
+		if r2 == SolverError {
+			in.solver2.Close()
+			if s, err := NewSolver(KindCVC5, in.tt, 5000); err == nil {
+				in.solver2 = s
+			} else {
+				in.solver2 = nil
+			}
+		}
+	}
+}
+
 func (in *Interp) assertTerm(fr *frame, c *Term, label string) {
 	h := in.h
 	h.Obligations++
@@ -406,7 +442,9 @@ func (in *Interp) assertTerm(fr *frame, c *Term, label string) {
 		in.model = nil
 		return
 	}
+	in.crossNext = in.solver2 != nil && in.crossLeft > 0
 	r, vals := in.check(in.tt.Not(c))
+	in.crossNext = false
 	switch r {
 	case Unsat:
 		h.Discharged++
@@ -903,6 +941,7 @@ func sanitize(s string) string {
 
 func buildEvidence(prop, tier string, seed int, hs []harnessInfo, results []*HarnessRun, stats []string, extra map[string]interface{}, nviol int, wall float64, validated int) *evidence {
 	paths, steps, obl, dis, triv, und := 0, 0, 0, 0, 0, 0
+	xc, xa, xu := 0, 0, 0
 	funcs := map[string]bool{}
 	intr := map[string]bool{}
 	bounds := map[string]interface{}{}
@@ -915,6 +954,9 @@ func buildEvidence(prop, tier string, seed int, hs []harnessInfo, results []*Har
 		dis += r.Discharged
 		triv += r.Trivial
 		und += r.Undecided
+		xc += r.CrossChecked
+		xa += r.CrossAgreed
+		xu += r.CrossUnknown
 		for f := range r.Funcs {
 			if strings.Contains(f, "nsqio/nsq") && !strings.Contains(f, "Verif") && !strings.Contains(f, "verif") {
 				funcs[strings.ReplaceAll(f, "github.com/nsqio/nsq/", "")] = true
@@ -954,6 +996,7 @@ func buildEvidence(prop, tier string, seed int, hs []harnessInfo, results []*Har
 		"discharged":                    dis,
 		"discharged_concretely":         triv,
 		"undecided":                     und,
+		"cross_checked_with_cvc5":       map[string]int{"queries": xc, "same_verdict": xa, "cvc5_unknown_or_timeout": xu},
 		"harnesses":                     stats,
 		"functions_encoded":             sortedKeys(funcs),
 		"bounds":                        bounds,
@@ -969,7 +1012,7 @@ func buildEvidence(prop, tier string, seed int, hs []harnessInfo, results []*Har
 		"environment models (intrinsics listed in coverage.intrinsics) are trusted contracts, validated by native replay of witnesses",
 		"interleavings at synchronisation-operation granularity with a bounded number of preemptions, sequential consistency",
 		"map iteration in insertion order",
-		"solver: z3 4.8.12 over QF bit-vector terms generated from go/ssa of the current /repo tree",
+		"solver: z3 4.8.12 over QF bit-vector terms generated from go/ssa of the current /repo tree; a sample of the assertion verdicts of every harness is re-decided by cvc5 1.0 on every run (coverage.cross_checked_with_cvc5), a disagreement makes the run inconclusive",
 	}
 	return &evidence{PropertyID: prop, Tier: tier, Seed: seed, Level: "model_checking", Coverage: cov, Assumptions: as, WallS: wall, Violations: nviol}
 }
